@@ -283,18 +283,39 @@ func (d *disk) containedIn(rel string, body []byte) bool {
 	return false
 }
 
-// changedBetween reports whether rel (or anything above it) was replaced, removed or swapped
-// between the two event stamps.
-func (d *disk) changedBetween(rel string, from, to int64) bool {
-	for name, f := range d.files {
-		if name != rel && !strings.HasPrefix(rel, name+"/") {
-			continue
+// contentAt returns the content rel had at event stamp t (nil, false if it did not exist as a
+// regular file then).
+func (d *disk) contentAt(rel string, t int64) ([]byte, bool) {
+	f := d.files[rel]
+	if f == nil {
+		return nil, false
+	}
+	var start int64
+	for i, v := range f.versions {
+		end := int64(0)
+		if i < len(f.until) {
+			end = f.until[i]
 		}
-		for _, u := range f.until {
-			if u != 0 && u > from && u < to {
-				return true
+		if start <= t && (end == 0 || end > t) {
+			if f.spec.isDir && i == 0 {
+				return nil, false
 			}
+			return v, true
+		}
+		if end != 0 {
+			start = end
 		}
 	}
-	return false
+	return nil, false
+}
+
+// changedBetween reports whether the content of rel at the second stamp differs from its
+// content at the first (a replacement by identical bytes is no change).
+func (d *disk) changedBetween(rel string, from, to int64) bool {
+	a, okA := d.contentAt(rel, from)
+	b, okB := d.contentAt(rel, to)
+	if okA != okB {
+		return true
+	}
+	return string(a) != string(b)
 }
